@@ -46,7 +46,9 @@ walk(io.stdout, "io.stdout", 0)
 for _, x in ipairs(q) do walk(x[1], x[2], x[3]) end
 for _, expr in ipairs{'string.gmatch("a", "a")', 'pairs({})', 'ipairs({})', 'io.lines("existing.txt")', 'utf8.codes("a")',
                       'coroutine.wrap(function() end)', 'io.open("existing.txt"):lines()', 'select(2, pcall(runtime.context))',
-                      'getmetatable(runtime.context())'} do
+                      'getmetatable(runtime.context())',
+                      -- functions that only exist as the results of library calls: the loaders returned by the searchers
+                      '(package.searchers[2]("existingmod"))', '(package.searchers[1]("string"))', '(package.searchpath and package.searchers[2]("existingmod"))'} do
   local ok, f = pcall(load("return " .. expr))
   if ok then walk(f, "(" .. expr .. ")", 3) end
 end
@@ -96,7 +98,7 @@ def static_classes():
     return classes
 
 
-POOL = ['"existing.txt"', '"new.txt"', '"sub"', '"touch pwned.txt"', '"w"', '"a"', "1", "{}"]
+POOL = ['"existing.txt"', '"existingmod.lua"', '"new.txt"', '"sub"', '"touch pwned.txt"', '"w"', '"a"', "1", "{}"]
 FLAGS = ["memsafe", "cpusafe", "iosafe", "timesafe"]
 QUICKSETS = [[], ["iosafe"], ["cpusafe"], ["memsafe"], ["timesafe"], ["memsafe", "cpusafe", "iosafe", "timesafe"]]
 
@@ -574,6 +576,10 @@ def run(prop, tier):
             else:
                 if "iosafe" in req and o.get("fs_changes"):
                     why = ("effect-under-iosafe", str(o["fs_changes"]))
+                elif "iosafe" in req and any(e and e[0] == {"s": "MODULE-RAN"} for e in evs):
+                    # reading a file leaves no trace in the sentinel directory, except for this one: its text is a Lua chunk
+                    # that reports being run
+                    why = ("effect-under-iosafe", "the file existingmod.lua was read and executed")
                 elif f["kind"] == "probe" and (probed != ntup or not alive or any(e[1] is not True for e in calls)):
                     why = ("refused-but-declared", "a probe that declared %s did not run %d times under %s" % (f["flags"], ntup, req))
         if why:
